@@ -13,14 +13,19 @@ RULE = (
     "1..3 subruns (run metadata written through the DataDirectory frontend, superrun defined with define_run) x per-subrun chunk "
     "layouts (1..3 chunks, rows at chunk edges, time gaps between subruns) x a 3-level graph src -> lv1 -> lv2 with the "
     "superrun-capable level at depth 1 or 2 x write_superruns on/off x rechunking with targets that cut inside and across "
-    "subruns x processor; histories: make/get, re-read from a fresh context, redefine with fewer / other subruns. oracle: "
+    "subruns x processor x {run names whose string order equals / differs from the order of run start} x {dead time between "
+    "subruns, back-to-back subruns} x {rows on the grid, rows 500 ns off the grid so that the rechunker cuts exactly on subrun "
+    "borders} x {subruns listed in / against start order} x rechunk_on_load {off, 1, 2 rows} x {single-kind chain, second-level "
+    "plugin consuming two data kinds of which one is rechunked across subrun borders, optionally made and stored first}; "
+    "histories: make/get, re-read from a fresh context, redefine with fewer subruns / with the same runs but a time-range "
+    "selection inside the first subrun. oracle: "
     "superrun rows == concatenation of the subruns' rows in order of run start (on the fly and re-read); every yielded and "
     "stored chunk lists exactly the subruns that contributed rows or time to it, each span inside that subrun's range, "
     "containing the chunk's rows of that run and intersecting the chunk; spans of one run over consecutive chunks are adjacent; "
-    "after redefinition previously stored superrun data is unavailable. non-trivial: >=2 subruns; distinct by configuration."
+    "after redefinition the storage key differs and previously stored superrun data is unavailable. non-trivial: >=2 subruns; distinct by configuration."
 )
 ASSUMPTIONS = ["small scope: <=3 subruns, <=3 chunks and <=3 rows each", "subrun time ranges are disjoint and ordered by run start (define_run sorts by the run documents' start)"]
-BOUNDS = {"quick": "all layouts of <=3 subruns from a 6-layout menu x 2 levels x write on/off x 3 rechunk settings x processors rotating", "thorough": "9-layout menu, full product"}
+BOUNDS = {"quick": "all layouts of <=3 subruns from a 7-layout menu x 2 levels; write / rechunk / processor / history and the 8 extension dimensions rotate (one combination per case, all pairs of values covered over the run)", "thorough": "9-layout menu, full product of layouts x level x write x rechunk x processor, 4 extension combinations per case"}
 U = g.SCALE
 GAP = 5  # grid steps between subruns
 
@@ -32,8 +37,8 @@ LAYOUTS = [
     (((1, 2),), (0, 1, 4)),
     ((), (0, 4)),
     (((0, 1), (1, 2), (3, 4)), (0, 1, 4)),
+    (((0, 1), (3, 4)), (0, 2, 2, 4)),  # zero-duration chunk in the middle
     (((0, 4),), (0, 4)),
-    (((0, 1), (3, 4)), (0, 2, 2, 4)),
     (((0, 1), (1, 2), (2, 3)), (0, 4)),
 ]
 
@@ -63,23 +68,41 @@ class Src(strax.Plugin):
         off = r["offset"]
         rows = g.src_rows("src", r["iv"], U, off * U)
         rows["rid"] += 100 * int(self.run_id)
+        rows["time"] += r.get("shift", 0)
         b = r["bounds"]
         idx = ss.assign_rows(r["iv"], b)[chunk_i]
         return self.chunk(start=(off + b[chunk_i]) * U, end=(off + b[chunk_i + 1]) * U, data=rows[idx] if idx else rows[:0])
 
 
-def mk_level(name, dep, allow, rc):
+def mk_level(name, dep, allow, rc, rol=None, kind="k_src"):
     def compute(self, **kw):
         (x,) = kw.values()
         return g.f_map(name, dep, x)
 
-    a = dict(provides=name, depends_on=(dep,), dtype=dt(name), data_kind="k_src", allow_superrun=allow, compute=compute, __version__="0")
+    a = dict(provides=name, depends_on=(dep,), dtype=dt(name), data_kind=kind, allow_superrun=allow, compute=compute, __version__="0")
     if rc is None:
         a["rechunk_on_save"] = False
     else:
         a["rechunk_on_save"] = True
         a["chunk_target_size_mb"] = g.target_size_rows(rc, name) if rc else 200
+    if rol:
+        a["rechunk_on_load"] = True
+        a["chunk_source_size_mb"] = g.target_size_rows(rol, name)
     return type("Lv_" + name, (strax.Plugin,), a)
+
+
+def mk_consumer():
+    """second-level plugin fed by two data kinds: lv1 (possibly rechunked across subrun borders) and sb (never rechunked)"""
+
+    def compute(self, k_src, k_b):
+        return g._out(k_src, "cc", k_src["v_lv1"] + 3 * k_b["v_sb"])
+
+    return type("Lv_cc", (strax.Plugin,), dict(provides="cc", depends_on=("lv1", "sb"), dtype=dt("cc"), data_kind="k_src", allow_superrun=True,
+                                               rechunk_on_save=False, compute=compute, __version__="0"))
+
+
+NAMES = (("1", "2", "3"), ("9", "10", "11"))  # the second scheme sorts differently as strings than by run start
+EXT0 = dict(nm=0, gap=5, shift=0, rev=False, rol=None, twokind=False, premake=False, redef="fewer")
 
 
 def write_run_doc(d, run_id, t0, t1):
@@ -89,9 +112,10 @@ def write_run_doc(d, run_id, t0, t1):
         json.dump(doc, f, sort_keys=True, indent=4, default=json_util.default)
 
 
-def subrun_rows(run_id, lay, off):
+def subrun_rows(run_id, lay, off, shift=0):
     rows = g.src_rows("src", lay[0], U, off * U)
     rows["rid"] += 100 * int(run_id)
+    rows["time"] += shift
     return rows
 
 
@@ -103,6 +127,11 @@ def check_chunk_annotations(res, chunks, runs, order, case, where):
     for ci, c in enumerate(chunks):
         sub = c.subruns if hasattr(c, "subruns") else c
         start, end, data = (c.start, c.end, c.data) if hasattr(c, "data") else (c["start"], c["end"], None)
+        if not sub and start == end:
+            # a zero-duration chunk holds no rows and no time span of any subrun; strax drops empty spans from the annotation
+            # by design (_pop_out_empty_run_id), so there is nothing it could record
+            res.count("zero_duration_chunks_without_annotation")
+            continue
         if not sub:
             res.violation(f"subruns:missing:{where}", f"chunk {ci} [{start},{end}) has no subruns annotation", case)
             return
@@ -136,40 +165,60 @@ def check_chunk_annotations(res, chunks, runs, order, case, where):
                     if data["time"][m].min() < sub[r]["start"] or strax.endtime(data[m]).max() > sub[r]["end"]:
                         res.violation(f"subruns:rows-outside-span:{where}", f"chunk {ci}: rows of run {r} outside its recorded span", case)
                         return
-        if listed != [r for r in order if r in listed]:
+        if listed != [r for r in order if r in listed] and not where.startswith("stored-metadata"):  # key order inside stored JSON carries no meaning
             res.violation(f"subruns:order:{where}", f"chunk {ci} lists runs {listed} out of run order", case)
             return
 
 
-def run_case(res, lays, level, write, rc, proc, history):
-    """lays: tuple of layout indices (one per subrun); level: 1 -> lv1 and lv2 allow superruns; 2 -> only lv2"""
-    case = dict(layouts=lays, level=level, write=write, rechunk=rc, processor=proc, history=history)
+ZDC = "zero-duration-chunk"
+
+
+def xfp(zdc, stage, e):
+    """fingerprint of an exception.  Inputs in which a subrun holds a zero-duration chunk form their own class, identified by
+    the innermost strax call site only (see known_findings.json): strax treats such chunks inconsistently in several places."""
+    if zdc:
+        return f"{ZDC}:{ctxrun.exc_fp(e, 1)}"
+    return f"{stage}:{ctxrun.exc_fp(e, 3)}"
+
+
+def run_case(res, lays, level, write, rc, proc, history, ext=None):
+    """lays: tuple of layout indices (one per subrun); level: 1 -> lv1 and lv2 allow superruns; 2 -> only lv2
+    ext: run naming scheme, gap between subruns (0 = back to back), row shift (500 ns: the rechunker then cuts exactly on grid
+    points, i.e. possibly exactly at a subrun start), definition order reversed, rechunk_on_load source size, two-kind consumer"""
+    ext = dict(EXT0, **(ext or {}))
+    case = dict(layouts=lays, level=level, write=write, rechunk=rc, processor=proc, history=history, ext=ext)
+    zdc = any(b[i] == b[i + 1] for li in lays for b in [LAYOUTS[li][1]] for i in range(len(b) - 1))
     d = ctxrun.fresh_dir("c14")
     runs = {}
     off = 1
     order = []
     for i, li in enumerate(lays):
-        rid = str(i + 1)
+        rid = NAMES[ext["nm"]][i]
         iv, b = LAYOUTS[li]
-        runs[rid] = dict(iv=iv, bounds=b, offset=off)
+        runs[rid] = dict(iv=iv, bounds=b, offset=off, shift=ext["shift"], lay=li)
         order.append(rid)
-        off += b[-1] + GAP
+        off += b[-1] + ext["gap"]
     CUR["runs"] = runs
-    classes = [Src, mk_level("lv1", "src", level == 1, rc), mk_level("lv2", "lv1", True, rc)]
+    classes = [Src, mk_level("lv1", "src", level == 1, rc, ext["rol"]), mk_level("lv2", "lv1", True, rc, ext["rol"])]
+    if ext["twokind"]:
+        classes += [mk_level("sb", "src", level == 1, None, None, kind="k_b"), mk_consumer()]
 
     def ctx():
         st = strax.Context(storage=[strax.DataDirectory(d, provide_run_metadata=True, deep_scan=True)], register=classes,
                            **dict(g.CTX_DEFAULTS, write_superruns=write, allow_rechunk=rc is not None))
         return st
 
-    exp = {}
+    exp, exp_cc = {}, {}
     for rid in order:
-        s = subrun_rows(rid, LAYOUTS[lays[int(rid) - 1]], runs[rid]["offset"])
-        exp[rid] = g.f_map("lv2", "lv1", g.f_map("lv1", "src", s))
+        s = subrun_rows(rid, LAYOUTS[runs[rid]["lay"]], runs[rid]["offset"], ext["shift"])
+        l1 = g.f_map("lv1", "src", s)
+        exp[rid] = g.f_map("lv2", "lv1", l1)
+        exp_cc[rid] = g._out(l1, "cc", l1["v_lv1"] + 3 * g.f_map("sb", "src", s)["v_sb"])
         write_run_doc(d, rid, runs[rid]["offset"], runs[rid]["offset"] + runs[rid]["bounds"][-1])
     want = np.concatenate([exp[r] for r in order])
     st = ctx()
     name = "_sup"
+    given = order[::-1] if ext["rev"] else order  # define_run must put the subruns in order of run start itself
 
     def call(f):
         with warnings.catch_warnings():
@@ -177,13 +226,13 @@ def run_case(res, lays, level, write, rc, proc, history):
             return ctxrun.run_controlled(f)  # making the subruns goes through multi_run's (virtual) thread pool
 
     try:
-        st.define_run(name, order)
+        st.define_run(name, given)
         chunks = call(lambda: list(st.get_iter(name, "lv2", processor=proc, progress_bar=False, multi_run_progress_bar=False)))
     except ctxrun.Deadlock as e:
         res.violation("deadlock", str(e), case)
         return
     except Exception as e:
-        res.violation("superrun:" + ctxrun.exc_fp(e, 3), f"making the superrun raised {type(e).__name__}: {e}"[:400], case)
+        res.violation(xfp(zdc, "superrun", e), f"making the superrun raised {type(e).__name__}: {e}"[:400], case)
         return
     got = ctxrun.concat(chunks)
     if not ctxrun.rows_equal(got, want):
@@ -198,7 +247,7 @@ def run_case(res, lays, level, write, rc, proc, history):
             if not ctxrun.rows_equal(a, exp[rid]):
                 res.violation("rows:subrun", f"subrun {rid} rows differ from its own computation", case)
         except Exception as e:
-            res.violation("subrun:" + ctxrun.exc_fp(e, 3), f"{type(e).__name__}: {e}"[:300], case)
+            res.violation(xfp(zdc, "subrun", e), f"{type(e).__name__}: {e}"[:300], case)
     stored = st2.is_stored(name, "lv2")
     if write and not stored:
         res.violation("write_superruns:not-stored", "write_superruns=True but the superrun data type is not stored", case)
@@ -211,32 +260,68 @@ def run_case(res, lays, level, write, rc, proc, history):
                 res.violation("rows:re-read", "stored superrun re-reads to different rows", case)
             check_chunk_annotations(res, ch2, runs, order, case, "re-read")
             md = st2.get_metadata(name, "lv2")
-            for ci, (cm, c) in enumerate(zip(md["chunks"], ch2)):
+            import types
+
+            check_chunk_annotations(res, [types.SimpleNamespace(start=cm["start"], end=cm["end"], data=None, subruns=cm.get("subruns")) for cm in md["chunks"]],
+                                    runs, order, case, "stored-metadata")
+            # (with rechunk_on_load the re-read chunks are not the stored ones; their annotations were checked above)
+            for ci, (cm, c) in enumerate(zip(md["chunks"], ch2) if not ext["rol"] else ()):
                 if cm.get("subruns") != c.subruns:
                     res.violation("subruns:metadata-mismatch", f"chunk {ci}: stored subruns {cm.get('subruns')} != re-read chunk's {c.subruns}", case)
                     break
             res.count("stored_superruns")
         except Exception as e:
-            res.violation("re-read:" + ctxrun.exc_fp(e, 3), f"{type(e).__name__}: {e}"[:300], case)
+            res.violation(xfp(zdc, "re-read", e), f"{type(e).__name__}: {e}"[:300], case)
+    # ---- a second-level consumer of two data kinds (one possibly rechunked across subrun borders, one never)
+    if ext["twokind"]:
+        st4 = ctx()
+        try:
+            if ext["premake"] and level == 1:
+                for t in ("lv1", "sb"):
+                    call(lambda: st4.make(name, t, processor=proc, progress_bar=False, multi_run_progress_bar=False))
+            chc = call(lambda: list(st4.get_iter(name, "cc", processor=proc, progress_bar=False, multi_run_progress_bar=False)))
+            if not ctxrun.rows_equal(ctxrun.concat(chc), np.concatenate([exp_cc[r] for r in order])):
+                res.violation("rows:two-kind-consumer", "two-kind consumer of the superrun: rows differ from the ordered concatenation of the subruns' results", case)
+            else:
+                check_chunk_annotations(res, chc, runs, order, case, "two-kind")
+            res.count("twokind_cases")
+        except ctxrun.Deadlock as e:
+            res.violation("deadlock:two-kind", str(e), case)
+        except Exception as e:
+            res.violation(xfp(zdc, "two-kind", e), f"{type(e).__name__}: {e}"[:300], case)
     # ---- redefine
-    if history == "redefine" and len(order) >= 2:
-        new_order = order[:-1] if len(order) > 1 else order
+    if history == "redefine" and (len(order) >= 2 or ext["redef"] == "range"):
         st3 = ctx()
         try:
-            st3.define_run(name, new_order)
+            old_key = str(st3.key_for(name, "lv2"))
+            if ext["redef"] == "range":
+                # same run ids, but only a part of the first subrun is selected
+                r0 = order[0]
+                b0 = runs[r0]["bounds"]
+                new_spec = {r: "all" for r in order}
+                new_spec[r0] = [int((runs[r0]["offset"] + b0[-2]) * U), int((runs[r0]["offset"] + b0[-1]) * U)]
+                st3.define_run(name, new_spec)
+                new_order = None
+            else:
+                new_order = order[:-1]
+                st3.define_run(name, new_order[::-1] if ext["rev"] else new_order)
+            if str(st3.key_for(name, "lv2")) == old_key:
+                res.violation("redefine:same-key", f"after redefining {name} ({ext['redef']}) its storage key is unchanged", case)
             if stored and st3.is_stored(name, "lv2"):
-                res.violation("redefine:stale-available", f"after redefining {name} as {new_order} the data stored for {order} is still reported available", case)
-            a = call(lambda: st3.get_array(name, "lv2", processor=proc, progress_bar=False, multi_run_progress_bar=False))
-            want2 = np.concatenate([exp[r] for r in new_order])
-            if not ctxrun.rows_equal(a, want2):
-                res.violation("redefine:stale-rows", f"after redefinition rows {a['rid'].tolist()} expected {want2['rid'].tolist()}", case)
+                res.violation("redefine:stale-available", f"after redefining {name} ({ext['redef']}: {new_order}) the data stored for {order} is still reported available", case)
+            if new_order is not None:
+                a = call(lambda: st3.get_array(name, "lv2", processor=proc, progress_bar=False, multi_run_progress_bar=False))
+                want2 = np.concatenate([exp[r] for r in new_order])
+                if not ctxrun.rows_equal(a, want2):
+                    res.violation("redefine:stale-rows", f"after redefinition rows {a['rid'].tolist()} expected {want2['rid'].tolist()}", case)
+            res.count("redefinitions_" + ext["redef"])
         except Exception as e:
-            res.violation("redefine:" + ctxrun.exc_fp(e, 3), f"{type(e).__name__}: {e}"[:300], case)
+            res.violation(xfp(zdc, "redefine", e), f"{type(e).__name__}: {e}"[:300], case)
     res.add_set("n_chunks", len(chunks))
 
 
 def cases(tier):
-    menu = range(6) if tier == "quick" else range(len(LAYOUTS))
+    menu = range(7) if tier == "quick" else range(len(LAYOUTS))
     out = []
     for n in (1, 2, 3):
         for lays in itertools.product(menu, repeat=n):
@@ -262,6 +347,12 @@ def worker_init():
 RC = (None, 1, 2, 0)
 
 
+def ext_for(k):
+    """k-th combination of the extension dimensions (mixed radix, so consecutive k walk through all pairs quickly)"""
+    return dict(nm=k % 2, gap=(5, 0)[(k // 2) % 2], shift=(0, 500)[(k // 4) % 2], rev=bool((k // 8) % 2), rol=(None, 1, 2)[(k // 3) % 3],
+                twokind=bool((k // 5) % 2), premake=bool((k // 7) % 2), redef=("fewer", "range")[(k // 9) % 2])
+
+
 def run_job(job):
     sh, ns, tier, seed = job
     res = Result()
@@ -277,11 +368,14 @@ def run_job(job):
                           (not bool(j % 2), RC[(j // 2 + 1) % 4], ("single_thread", "threaded_mailbox")[(j // 8 + 1) % 2], "redefine")]
             else:
                 combos = [(w, rc, p, "redefine") for w in (False, True) for rc in RC for p in ("single_thread", "threaded_mailbox")]
-            for write, rc, proc, hist in combos:
-                res.evals += 1
-                if len(lays) >= 2:
-                    res.nt(lays, level, write, rc, proc, hist)
-                run_case(res, lays, level, write, rc, proc, hist)
+            for ci, (write, rc, proc, hist) in enumerate(combos):
+                # extension dimensions: quick rotates one combination per case, thorough four per case
+                for q in range(1 if tier == "quick" else 4):
+                    ext = ext_for(3 * i + 7 * ci + 11 * q + seed)
+                    res.evals += 1
+                    if len(lays) >= 2:
+                        res.nt(lays, level, write, rc, proc, hist, tuple(sorted(ext.items(), key=str)))
+                    run_case(res, lays, level, write, rc, proc, hist, ext)
             if i % 53 == 0:
                 res.sample(dict(subrun_layouts=[LAYOUTS[k] for k in lays], superrun_level=level, combos=combos[:1]), cap=2)
     return res
@@ -290,7 +384,7 @@ def run_job(job):
 def replay(case):
     worker_init()
     res = Result()
-    run_case(res, tuple(case["layouts"]), case["level"], case["write"], case["rechunk"], case["processor"], case["history"])
+    run_case(res, tuple(case["layouts"]), case["level"], case["write"], case["rechunk"], case["processor"], case["history"], case.get("ext"))
     return res.violations
 
 
@@ -299,3 +393,6 @@ def sanity(total, tier):
         return "fewer than 20 stored superruns were re-read"
     if len(total.sets.get("n_chunks", ())) < 3:
         return "superrun chunk counts hardly varied"
+    for k in ("twokind_cases", "redefinitions_fewer", "redefinitions_range"):
+        if total.counters.get(k, 0) < 10:
+            return f"fewer than 10 {k}"
